@@ -187,6 +187,10 @@ func (regManager *RegistrationManager) ValidateRegistration(reg *DecoyRegistrati
 		return false, errIncompleteReg
 	} else if reg.Keys == nil {
 		return false, errIncompleteReg
+	} else if len(reg.Keys.SharedSecret) == 0 {
+		// HKDF accepts an empty secret, so a message without a shared secret still yields keys
+		// (that anybody can derive) and a phantom. It is incomplete all the same.
+		return false, errIncompleteReg
 	} else if reg.PhantomIp == nil {
 		return false, errIncompleteReg
 	} else if reg.RegistrationSource == nil {
